@@ -1,4 +1,5 @@
 import InTotoModel.Lemmas.AttestCodec
+import InTotoModel.Lemmas.TimeParse
 /-
   C19 (value level) — "serializes to a canonical form that parses back to an equal value".
 
@@ -73,6 +74,30 @@ theorem c19_statement_round_trip (E : Ext) (st : Str) (fields : List (Str × AVa
     decStatement E (encTop (.struct st fields)) = some (.struct st fields) :=
   wrapper_round_trip E statementTrialOrder statementFormats trial_order_is_format_list.2
     c19_statement_formats_disjoint st fields hst hwt
+
+/-- The externally modelled member types are in normal form when written by their own encoders, so the
+    `ext` hypothesis of `WT` holds for what the library writes: timestamps (`AutoSi`, any whole-minute
+    offset, years 0000-9999, leap seconds), artifact maps, commands, byproducts. -/
+theorem c19_written_members_are_in_normal_form :
+    (∀ (t : Time.Time) (off : Int), Time.OffsetOk off →
+      (0 ≤ (Time.civilFromDays ((t.secs + off) / 86400)).y ∧ (Time.civilFromDays ((t.secs + off) / 86400)).y ≤ 9999) →
+      t.nanos < 2000000000 → (t.nanos ≥ 1000000000 → t.secs % 60 = 59) →
+      stdExt.norm sTime (.str (Time.fmtAutoSi t off)) = some (.str (Time.fmtAutoSi t off))) ∧
+    (∀ a : Rules.Artifacts, ArtsWF a → stdExt.norm sArtifacts (artsToJson a) = some (artsToJson a)) ∧
+    (∀ c : List Str, stdExt.norm sCommand (commandToJson c) = some (commandToJson c)) ∧
+    (∀ b : ByProducts, b.WF → stdExt.norm sByproducts (byProductsToJson b) = some (byProductsToJson b)) := by
+  have hE : stdExt.norm = stdNorm := rfl
+  rw [hE]
+  refine ⟨?_, ?_, ?_, ?_⟩
+  · intro t off ho hy hn hl
+    rw [stdNorm_time]
+    simp only [normTime, Time.normTimeStamp_fmtAutoSi t off ho hy hn hl, Option.map_some]
+  · intro a ha
+    rw [stdNorm_artifacts, arts_round_trip ha]; rfl
+  · intro c
+    rw [stdNorm_command, command_round_trip c]; rfl
+  · intro b hb
+    rw [stdNorm_byproducts, byproducts_round_trip b hb]; rfl
 
 /-- The schema table read from the source is well formed: struct names distinct, member names
     distinct within a struct, "required" = "not an `Option`", `skip_serializing_if` only on `Option`s. -/
